@@ -19,8 +19,17 @@ MODULE = 'PyTough.Props.C06'
 TARGETS = ['PyTough.Props.C06', 'drv_c05']
 THEOREMS = ['Props.C06.' + t for t in ['scan_reads_selected_lines', 'history_table_eq_cells', 'reversed_key_negated',
                                     'history_leaves_reader_unchanged', 'history_preserves_view']]
-LEVEL_TEXT = ''
-LEVEL_NOTE = ''
+LEVEL_TEXT = ('Proof: 5 Lean theorems about the model of t2listing.history(): the one-pass read of the selected rows of a table returns for every '
+              'entry (any number, any order, repeated rows) exactly the cell that the row reader gives for that row line, with the same exception '
+              'when a cell cannot be read (scan_reads_selected_lines, history_table_eq_cells); a reversed connection name yields the negated value; '
+              'a history() call that returns leaves index, time, step and every table of the reader unchanged (history_leaves_reader_unchanged, '
+              'for the whole-file model, all simulators). No sorry. Termination is not proved: the model makes non-termination an explicit outcome '
+              '(a skip loop that spins at end of file is `diverges`) and every run compares it with the real call under a 20 s timeout; '
+              'the stepping oracle compares every series value by value.')
+LEVEL_NOTE = ('Trusted: Lean kernel (+propext, Classical.choice, Quot.sound); the hand-written whole-file model (history() of the model vs the real call: same '
+              'selections, series bit-equal, None/exception class equal, on every run); that the lines history() reaches by skip_to_table + '
+              'skip_to_results_line are the lines read_tables reads (the Aligned hypothesis) is checked by the correspondence and the oracle on the '
+              'explored selections, not proved.')
 TECHNIQUE = L.TECHNIQUE
 ASSUMPTIONS = list(L.ASSUMPTIONS)
 TRUSTED_EXTRA = list(L.TRUSTED_EXTRA)
@@ -254,6 +263,7 @@ def job_c06(job, progress):
         except Exception:
             rec = 'unreadable'
         res['calls'].append(dict(call, out=rec))
+        res.setdefault('keys', []).append(json.dumps([rel, vspec, items, short, call['start']], sort_keys=True))
         d = L.views_equal(before, after)
         if d:
             viol('history-changes-view:%s' % family, 'after history(%r) the reader shows something else than before: %s' % (arg, d), **call)
@@ -345,6 +355,8 @@ def collect(res, results, jobs):
         res.count('files:' + r['family'])
         for s in r['samples']:
             res.sample(s)
+        for k in r.get('keys', []):
+            res.distinct.add(k)
 
 
 def enc_item(it):
@@ -481,8 +493,6 @@ def run(ctx):
     collect(res, results, jobs)
     n = res.stats.get('history-calls', 0)
     res.facet('oracle_history')['cases'] = n
-    # distinct: measured as the number of history calls compared (selections are random: collisions are negligible but counted conservatively)
-    res.distinct = set(range(res.stats.get('series-compared', 0)))
     if ctx.model_ok:
         correspond(ctx, res, jobs, results)
     return res
